@@ -319,6 +319,33 @@ func runQueryCase(port, maxTTL, proto, method string, hasPort, hasTTL, hasProto,
 	return in, L(sxInt(0), sxInt(int64(protoCode(p.Protocol))), sxInt(int64(p.MinTTL)), sxInt(int64(p.MaxTTL)), sxInt(int64(p.Port)), sxInt(int64(methodCode(string(p.TCPMethod)))))
 }
 
+// ---- kind 23: the endpoint an HTTP query's target text stands for is the endpoint the request would probe ----
+
+// runQueryTargetCase parses the query with the server's parser, then resolves what it handed on (hostname, port; 0 = the
+// default port) with the library's own target parser: the address and port the run would probe.
+func runQueryTargetCase(target string, wantAddr []byte, explicitPort int, port string, hasPort bool) (sx, sx) {
+	q := url.Values{}
+	q.Set("target", target)
+	if hasPort {
+		q.Set("port", port)
+	}
+	u := &url.URL{Path: "/traceroute", RawQuery: q.Encode()}
+	p, err := server.VerifParseTracerouteParams(u)
+	in := L(sxInt(23), sxStr(target), sxBytes(wantAddr), sxInt(int64(explicitPort)), optInt(port, hasPort))
+	if err != nil {
+		return in, L(sxInt(1), sxInt(1), sxBytes(nil), sxInt(0))
+	}
+	dflt := p.Port
+	if dflt == 0 {
+		dflt = 33434
+	}
+	ap, perr := traceroute.VerifParseTarget(p.Hostname, dflt, len(wantAddr) == 16)
+	if perr != nil {
+		return in, L(sxInt(0), sxInt(1), sxBytes(nil), sxInt(0))
+	}
+	return in, L(sxInt(0), sxInt(0), sxBytes(ap.Addr().AsSlice()), sxInt(int64(ap.Port())))
+}
+
 // ---- kind 10: target literal forms -----------------------------------------------------------
 
 func runTargetCase(raw string, dflt int, v6 bool, wantAddr []byte, explicitPort int) (sx, sx) {
@@ -493,6 +520,8 @@ func runTCPCase(t *testing.T, method string, capab int) (sx, sx) {
 		l.Close()
 	}
 	var out sx
+	var outHead []sx
+	tupleMismatch := 0
 	synctest.Test(t, func(t *testing.T) {
 		f := &wireFactory{faults: newFaultPlan()}
 		lo := [4]byte{127, 0, 0, 1}
@@ -571,22 +600,51 @@ func runTCPCase(t *testing.T, method string, capab int) (sx, sx) {
 		f.mu.Lock()
 		for _, h := range f.handles {
 			closes = append(closes, L(sxInt(int64(h.src.closes)), sxInt(int64(h.snk.closes)), sxInt(int64(h.src.useAfter+h.snk.useAfter))))
+			// the 4-tuple filter a handle was given against the flow of the TCP packets written through that same handle
+			h.src.mu.Lock()
+			specs := append([]packets.PacketFilterSpec(nil), h.src.filterSpecs...)
+			h.src.mu.Unlock()
+			for _, sp := range specs {
+				if sp.FilterType != packets.FilterTypeTCP {
+					continue
+				}
+				for _, o := range h.snk.sent() {
+					b := o.data
+					if len(b) >= 24 && b[0]>>4 == 4 && b[9] == 6 {
+						l4 := b[int(b[0]&0xf)*4:]
+						if len(l4) >= 4 && (int(l4[0])<<8|int(l4[1]) != int(sp.FilterConfig.Dst.Port()) || int(l4[2])<<8|int(l4[3]) != int(sp.FilterConfig.Src.Port())) {
+							tupleMismatch++
+						}
+					}
+				}
+			}
 		}
 		f.mu.Unlock()
 		if status != 2 && err != nil {
 			status = 1
 		}
-		out = L(sxInt(int64(status)), sxBool(err != nil && errors.As(err, &ns)), sxBool(err != nil && errors.Is(err, injectedCause)),
-			sxInt(int64(syn)), sxInt(int64(ackpsh)), sxInt(int64(accepted.Load())), closes)
+		outHead = []sx{sxInt(int64(status)), sxBool(err != nil && errors.As(err, &ns)), sxBool(err != nil && errors.Is(err, injectedCause)),
+			sxInt(int64(syn)), sxInt(int64(ackpsh)), sxInt(int64(accepted.Load())), closes, sxInt(int64(tupleMismatch))}
 	})
 	if ln != nil {
 		ln.Close()
 	}
+	// seen from the peer: every TCP connection the run dialled is closed once the run has returned (EOF or reset at
+	// once; a connection still open makes the read run into its deadline)
+	leaked := 0
 	cmu.Lock()
 	for _, c := range conns {
+		_ = c.SetReadDeadline(time.Now().Add(300 * time.Millisecond))
+		var b [1]byte
+		_, rerr := c.Read(b[:])
+		var ne net.Error
+		if rerr != nil && errors.As(rerr, &ne) && ne.Timeout() {
+			leaked++
+		}
 		c.Close()
 	}
 	cmu.Unlock()
+	out = L(append(outHead, sxInt(int64(leaked)))...)
 	return L(sxInt(12), sxInt(int64(methodCode(method))), sxInt(int64(capab))), out
 }
 
@@ -693,6 +751,28 @@ func labPar(e labEnv) {
 			r.bool(), r.bool(), r.bool(), r.bool())
 		w.put(in, out)
 		tags["query"]++
+	}
+	// kind 23: address literals whose tail looks like a port, bracketed and bare, with and without an explicit port
+	{
+		a4, b4 := []byte{192, 0, 2, 7}, []byte{198, 51, 100, 9}
+		ip6 := func(s string) []byte { return net.ParseIP(s).To16() }
+		for _, tg := range []struct {
+			raw  string
+			addr []byte
+			port int
+		}{{"127.0.0.1", []byte{127, 0, 0, 1}, -1}, {"192.0.2.7:443", a4, 443}, {"192.0.2.7:1", a4, 1}, {"198.51.100.9:65535", b4, 65535},
+			{"2001:db8::1", ip6("2001:db8::1"), -1}, {"2001:db8::1:443", ip6("2001:db8::1:443"), -1}, {"2001:db8::10:25", ip6("2001:db8::10:25"), -1},
+			{"[2001:db8::7]", ip6("2001:db8::7"), -1}, {"[2001:db8::7]:8080", ip6("2001:db8::7"), 8080}, {"::1", ip6("::1"), -1}, {"fe80::1:80", ip6("fe80::1:80"), -1},
+			{"2001:db8:0:0:0:0:0:53", ip6("2001:db8::53"), -1}} {
+			for _, pt := range []struct {
+				s  string
+				ok bool
+			}{{"", false}, {"8080", true}, {"0", true}, {"65535", true}} {
+				in, out := runQueryTargetCase(tg.raw, tg.addr, tg.port, pt.s, pt.ok)
+				w.put(in, out)
+				tags["query_target"]++
+			}
+		}
 	}
 	// kind 10
 	v4 := []byte{127, 0, 0, 1}
